@@ -126,6 +126,8 @@ def call_name(ex, name, pos, kw, st, fr, e):
         if getattr(x, 'kind', None) == 'seq':
             return [(vint(x.n), st)]
         if x.kind == 'ref' and x.ty.cls == 'list':
+            if sym.BOUND is not None:
+                sym.SIDE.append(h.llen(x.t) <= sym.BOUND)     # bounded exploration: every list looked at is small
             return [(vint(h.llen(x.t)), st)]
         if x.kind == 'ref' and x.ty.cls == 'dict':
             return [(vint(h.dlen(x.t)), st)]
@@ -651,6 +653,9 @@ def extern_call(ex, recv, name, pos, kw, st, fr, cls):
         elif res.kind in ('real', 'int') and res.inf is None and res.n is None:
             arr = st.heap.get('$tr.resx', I, R)
             st.heap.set('$tr.resx', z3.Store(arr, n, to_real(res.t)))
+        elif res.kind == 'ref':
+            arr = st.heap.get('$tr.resr', I, Ref)
+            st.heap.set('$tr.resr', z3.Store(arr, n, res.t))
         elif res.kind == 'real' and res.n is not None and res.inf is None:
             arr = st.heap.get('$tr.resx', I, R)
             st.heap.set('$tr.resx', z3.Store(arr, n, res.t))
